@@ -33,6 +33,55 @@ type c11Doc struct {
 	pj    *simdjson.ParsedJson
 	model []*ref.Value
 	dump  []byte
+	// raw: a tape whose (last) root entry was itself replaced with SetNull, which upstream
+	// supports and tests (MarshalJSON gives "null"): the null and the deleted run then sit
+	// outside any root and the tape ends in deleted entries. The structured readers have no
+	// common view of such a tape, so a round trip is compared by the entry kinds of the
+	// tape and the marshalled text.
+	raw bool
+}
+
+// c11RootNulled returns a clone of d whose last root entry was replaced by null.
+func c11RootNulled(d *c11Doc) *c11Doc {
+	if d == nil {
+		return nil
+	}
+	pj := d.pj.Clone(nil)
+	ok := false
+	walk.Guard(func() error {
+		it := pj.Iter()
+		for i := 0; i < len(d.model); i++ {
+			if it.Advance() != simdjson.TypeRoot {
+				return nil
+			}
+		}
+		ok = it.SetNull() == nil
+		return nil
+	})
+	if !ok {
+		return nil
+	}
+	return &c11Doc{name: "root-nulled", pj: pj, raw: true, dump: []byte("raw")}
+}
+
+func c11RawView(pj *simdjson.ParsedJson) string {
+	var b strings.Builder
+	for _, w := range pj.Tape {
+		// kinds only: payload words of numbers can hold any byte in this position, which is
+		// the same on both sides of a round trip
+		b.WriteByte(byte(w >> 56))
+	}
+	b.WriteString(" | ")
+	walk.Guard(func() error {
+		it := pj.Iter()
+		text, err := it.MarshalJSON()
+		b.Write(text)
+		if err != nil {
+			b.WriteString(" | " + err.Error())
+		}
+		return nil
+	})
+	return b.String()
 }
 
 // c11MakeDoc parses (and optionally edits) a document into an independent tape.
@@ -111,7 +160,13 @@ func (w *W) c11Docs(r *gen.Rand, k int) []*c11Doc {
 		nd.Write(gen.Doc(r.Split(), gen.DocCfg{Size: 30 + r.Intn(200), MaxDepth: 3, MaxFan: 4, Esc: 20, NoLF: true, DupKeys: true}))
 		nd.WriteByte('\n')
 	}
-	add(w.c11MakeDoc(r, "ndjson", nd.Bytes(), true, r.Intn(3)))
+	ndDoc := w.c11MakeDoc(r, "ndjson", nd.Bytes(), true, r.Intn(3))
+	add(ndDoc)
+	if len(out) > 0 && r.Bool() {
+		add(c11RootNulled(out[0]))
+	} else {
+		add(c11RootNulled(ndDoc))
+	}
 	switch k % 12 {
 	case 0:
 		// > 16384 distinct equal-length strings: pigeonhole collisions in the 16 Ki-entry string table
@@ -158,6 +213,12 @@ func (w *W) c11Docs(r *gen.Rand, k int) []*c11Doc {
 }
 
 func c11Compare(out *simdjson.ParsedJson, d *c11Doc) string {
+	if d.raw {
+		if a, b := c11RawView(d.pj), c11RawView(out); a != b {
+			return fmt.Sprintf("tape kinds | marshalled text: %.300q, source has %.300q", b, a)
+		}
+		return ""
+	}
 	got, err := walk.Into(out)
 	return cmpRoots(d.model, got, err, false)
 }
@@ -239,12 +300,18 @@ func (w *W) c11Program(k int, emit func(blob, dump []byte)) {
 		}
 		blob = blob[len(pre):]
 		if emit != nil {
-			emit(blob, d.dump)
+			if !d.raw {
+				emit(blob, d.dump)
+			}
 		}
 		// occasionally a corrupt blob in between (failure history on B and the destination)
 		di := r.Intn(len(dsts))
 		if r.Chance(1, 5) && len(blob) > 12 {
 			bad := append([]byte{}, blob[:len(blob)/2]...)
+			if r.Bool() {
+				// a late error: everything but the last bytes is intact
+				bad = append([]byte{}, blob[:len(blob)-1-r.Intn(8)]...)
+			}
 			walk.Guard(func() error { B.Deserialize(bad, dsts[di]); return nil })
 			trace = append(trace, "deser(truncated)")
 		}
